@@ -14,6 +14,14 @@ def split_program(p):
     return forms[1], helpers, forms[-1]
 
 
+def vanished_variable(body_text, residual):
+    """a free variable of the expression that does not occur in the residual at all."""
+    import re
+    used = set(re.findall(r"\bP[0-9]+\b", body_text))
+    left = set(re.findall(r"\bP[0-9]+\b", residual))
+    return bool(used - left)
+
+
 def wrap(params, helpers, body_text, sigil="*standard-cl-21*"):
     hs = " ".join(progen.text(h) for h in helpers)
     return f"(mod {progen.text(params)} (include {sigil}) {hs} {body_text})"
@@ -93,6 +101,8 @@ def run(chk):
                     sig = "repl:free-variable-quoted-in-compiled-fragment"
                 elif re.search(r"(?:\(|\s)(?:1|q) \. [A-Za-z0-9_]+_\$_[0-9]+\)", residual):
                     sig = "repl:let-bound-name-quoted"
+                elif not closed and vanished_variable(progen.text(body), residual):
+                    sig = "repl:free-variable-folded-as-constant"
                 if compilers.rest_call_of_binding_inline(p["tree"]):
                     sig = "compile:inline-rest-binding-form"
                 chk.fail("oracle", sig,
